@@ -88,7 +88,7 @@ def _anchor(draw, f):
 
 
 @st.composite
-def _series_near(draw, f, anchor, nv=None, max_len=10, spread=6, scale=1.0, allow_empty=False):
+def _series_near(draw, f, anchor, nv=None, max_len=10, spread=6, scale=1.0, allow_empty=False, gaps=False):
     """Series description {"f", "start", "nv", "rows"} starting within `spread` periods of the anchor index."""
     off = draw(st.integers(-spread, spread))
     n = draw(st.sampled_from([min(4, max_len)] + list(range(1, max_len + 1))))
@@ -100,6 +100,10 @@ def _series_near(draw, f, anchor, nv=None, max_len=10, spread=6, scale=1.0, allo
         rows = [[None if ks[r * nv + v] <= -41 else ks[r * nv + v] / 8.0 for v in range(nv)] for r in range(n)]
     if scale != 1.0:
         rows = [[None if x is None else x * scale for x in row] for row in rows]
+    if gaps and n >= 3 and draw(st.integers(0, 2)) == 0:
+        g0 = draw(st.integers(1, n - 2))                 # a block of entirely missing interior periods
+        for r in range(g0, min(n - 1, g0 + draw(st.integers(1, 3)))):
+            rows[r] = [None] * nv
     if not allow_empty and all(x is None for row in rows for x in row):
         rows[0][draw(st.integers(0, nv - 1))] = 1.0 * scale
     return {"f": f, "start": pgen.from_index(f, anchor + off), "nv": nv, "rows": rows}
@@ -466,7 +470,7 @@ def _check_csv(case):
             wkw["frequency_span"] = fsp
         else:
             wkw["frequency"] = ir.Frequency(sel["f"])
-    delim_tag = "" if opts["delimiter"] == "," else ":noncomma_delimiter"
+    tag = ("" if opts["delimiter"] == "," else ":noncomma_delimiter") + (":frequency_option" if sel and sel["kind"] == "frequency" else "")
 
     tmp = tempfile.mkdtemp(prefix="c19_")
     try:
@@ -477,7 +481,7 @@ def _check_csv(case):
             except Exception:  # noqa: BLE001 - the documented outcome
                 pass
             else:
-                col.fail("csv:when_empty_error_not_raised", "nothing to export, when_empty='error', no exception")
+                col.fail("csv:when_empty_error_not_raised" + tag, "nothing to export, when_empty='error', no exception")
             col.done()
             return {"labels": ["when_empty_error"], "nontrivial": False}
         with warnings.catch_warnings():
@@ -491,9 +495,9 @@ def _check_csv(case):
                 col.check(ok, "csv:info", lambda: f"return_info=True returned {info!r}")
                 if ok:
                     col.check(sorted(info["names_exported"]) == sorted(exported),
-                              "csv:info_names_exported" + (":frequency_option" if sel and sel["kind"] == "frequency" else ""),
+                              "csv:info_names_exported" + tag,
                               lambda: f"names_exported {sorted(info['names_exported'])}, expected {sorted(exported)}")
-            back = api("csv:read" + delim_tag, ir.Databox.from_csv_file, path, **rkw)
+            back = api("csv:read" + tag, ir.Databox.from_csv_file, path, **rkw)
     finally:
         shutil.rmtree(tmp, ignore_errors=True)
 
@@ -505,7 +509,6 @@ def _check_csv(case):
     judged = [n for n in exported if not exp[n].is_empty()]
     optional = [n for n in exported if exp[n].is_empty()]
     got_names = list(back.keys())
-    tag = ":frequency_option" if sel and sel["kind"] == "frequency" else ""
     col.check(len(set(got_names)) == len(got_names), "csv:names_duplicated", lambda: f"{got_names}")
     missing = [n for n in judged if n not in back]
     extra = [n for n in got_names if n not in exported]
@@ -515,7 +518,7 @@ def _check_csv(case):
         if n in back:
             msg = _cmp_rounded(back[n], exp[n], rnd, descs[n] if opts["description_row"] else "")
             what = "description" if msg.startswith("description") else "span" if msg.startswith("span") else "values"
-            col.check(not msg, f"csv:{what}", lambda: f"series {n!r}: {msg}")
+            col.check(not msg, f"csv:{what}{tag}", lambda: f"series {n!r}: {msg}")
     for n in optional:
         if n in back:
             x = back[n]
@@ -880,7 +883,7 @@ def _machine_case(draw):
         f = _KIND_F[name[0]]
         nv = draw(st.sampled_from([kmax[name], 1, kmax[name]]))
         return {"name": name, "kind": "series", "desc": draw(st.sampled_from(["", "", name + " descr", "a, \"b\""])),
-                "series": draw(_series_near(f, anchors[f], nv=nv, max_len=9, spread=6))}
+                "series": draw(_series_near(f, anchors[f], nv=nv, max_len=9, spread=6, gaps=True))}
 
     def same_kind_name(n):
         return [m for m in pool if m[0] == n[0]]
@@ -910,7 +913,7 @@ def _machine_case(draw):
         if kind in ("copy", "shallow", "rename"):
             src = draw(_source_sel(universe))
             if src is not None and src[0] in ("list", "tuple"):
-                how = draw(st.sampled_from(["none", "func", "list_func", "list_func", "list_perm", "list_pool"] if kind != "rename"
+                how = draw(st.sampled_from(["none", "func", "list_func", "list_perm", "list_perm", "list_pool"] if kind != "rename"
                                            else ["none", "func", "list_func", "list_func", "list_pool"]))
                 if how == "none":
                     tgt = None
@@ -920,7 +923,7 @@ def _machine_case(draw):
                     fn = _mk_func(draw(st.sampled_from(_FUNCS)))
                     tgt = ["list", [fn(n) for n in src[1]]]
                 elif how == "list_perm":
-                    tgt = ["list", draw(st.permutations(src[1]))]
+                    tgt = ["list", draw(st.one_of(st.just(src[1][1:] + src[1][:1]), st.permutations(src[1])))]
                 else:
                     tgt = ["list", [draw(st.sampled_from(same_kind_name(n))) if n[0] in "yhqmdisl" and n in pool else n + "_n" for n in src[1]]]
             elif src is not None and src[0] == "str":
@@ -1088,6 +1091,8 @@ class _Machine:
             if chosen:
                 self.label("lay_ambiguity_resolved")
             a.set_state(cands[chosen])
+            if not a.cells:
+                a.desc = _DONTCARE       # trim() of an all-missing series resets it, description included: not judged
             mutated.add(id(a))
         return mutated
 
@@ -1381,7 +1386,7 @@ def _bucket_matcher(*needles):
 
 
 FINDING_MATCHERS = {
-    "csv_noncomma_delimiter": _bucket_matcher("csv:read:noncomma_delimiter"),
+    "csv_noncomma_delimiter": _bucket_matcher(":noncomma_delimiter"),
     "csv_frequency_option": _bucket_matcher(":frequency_option"),
     "lay_mutates_other": lambda sub, case, bucket, message: (
         sub == "machine" and bucket.endswith(":other_box_item") and "number of variants" in message),
@@ -1391,7 +1396,7 @@ FINDING_MATCHERS = {
 
 
 SUBCHECKS = [
-    HypSub("csv_roundtrip", _csv_case, _check_csv, _classify_csv, budget={"quick": 1200, "thorough": 40000}),
-    HypSub("slate_roundtrip", _slate_case, _check_slate, _classify_slate, budget={"quick": 1500, "thorough": 40000}),
-    HypSub("machine", _machine_case, _check_machine, _classify_machine, budget={"quick": 1200, "thorough": 30000}),
+    HypSub("csv_roundtrip", _csv_case, _check_csv, _classify_csv, budget={"quick": 2500, "thorough": 40000}),
+    HypSub("slate_roundtrip", _slate_case, _check_slate, _classify_slate, budget={"quick": 2500, "thorough": 40000}),
+    HypSub("machine", _machine_case, _check_machine, _classify_machine, budget={"quick": 3000, "thorough": 50000}),
 ]
